@@ -464,6 +464,7 @@ let run_line c (l : string) seq =
         let q = vec t in let qd = vec t in let fe = fext t in
         let (w, tau) = nonlinear_effects fo m m.ws q qd (zeros n_qd) fe in
         setw c w; line "o" seq "nle" (fun () -> ovec tau);
+        line "i" seq "wf" (fun () -> if order_ok m then os "1" else (os "0"; os "update_order_does_not_list_every_movable_body"));
         spec_try (fun () -> line "s" seq "nle" (fun () -> ovec (spec_tau c m.gravity q qd (zeros n_qd) fe)))
       | "crba" ->
         let flag = integer t <> 0 in let q = vec t in
